@@ -706,6 +706,20 @@ fn run_c13sim(ctx: &Ctx) {
 }
 
 // ===================================================================================== C01 (simulation part), C10 amd64 stub bytes
+/// Order of the writes of the last install: the entry may only be redirected once the trampoline holds its code;
+/// in between any thread calling the function would run whatever the fresh page contains.
+/// Some((entry write index, last trampoline write index)) if the entry was written first.
+fn entry_written_before_trampoline(src: u64, jit: u64) -> Option<(usize, usize)> {
+    let lg = log();
+    let entry_at = lg.iter().position(|e| matches!(e, Ev::Patch { func, .. } if *func == src))?;
+    let last_tramp = lg.iter().rposition(|e| matches!(e, Ev::Inject { dest, .. } if *dest >= jit && *dest < jit + 4096))?;
+    if last_tramp > entry_at {
+        Some((entry_at, last_tramp))
+    } else {
+        None
+    }
+}
+
 fn c01_one(b: &mut Batch, forms: &mut BTreeMap<String, u64>, src: u64, jit: u64, fake: u64, boolean: Option<bool>, salt: u64) {
     b.evals += 1;
     let res = install(Arch::Amd64, src, jit, fake, boolean, salt);
@@ -718,6 +732,9 @@ fn c01_one(b: &mut Batch, forms: &mut BTreeMap<String, u64>, src: u64, jit: u64,
             }
         }
         Ok(()) => {
+            if let Some((e, t)) = entry_written_before_trampoline(src, jit) {
+                b.fail("entry-redirected-before-the-trampoline-was-written", mk(J::new().n("entry_write_is_event", e as u64).n("last_trampoline_write_is_event", t as u64)));
+            }
             let reader = |a: usize, n: usize| -> Option<Vec<u8>> { Some((0..n as u64).map(|i| rd8((a as u64).wrapping_add(i))).collect()) };
             let want = if boolean.is_some() { usize::MAX } else { fake as usize };
             let w = x86::follow(src as usize, want, &reader);
@@ -890,7 +907,7 @@ fn run_c01sim(ctx: &Ctx) {
     let two31: i64 = 1 << 31;
     let edge: Vec<i64> = vec![two31 - 1, two31 - 2, two31, two31 + 1, two31 + 2, -two31, -two31 + 1, -two31 - 1, -two31 - 2, 0, 1, -1, 5, -5, 4096, -4096, (1i64 << 32) - 1, 1i64 << 32, 1i64 << 40, -(1i64 << 40), 1i64 << 46, -(1i64 << 46)];
     let nrand = if ctx.n > 0 { ctx.n } else if ctx.thorough { 3_000_000 } else { 200_000 };
-    let names = ["edge-grid", "random-near", "random-far", "boolean", "full-64-bit", "absolute-address-classes"];
+    let names = ["edge-grid", "random-near", "random-far", "boolean", "full-64-bit", "absolute-address-classes", "arm64-write-order"];
     for (idx, name) in names.iter().enumerate() {
         let idx = idx as u64;
         if !ctx.mine(idx) {
@@ -901,6 +918,29 @@ fn run_c01sim(ctx: &Ctx) {
         let mut b = Batch::new();
         let mut rng = Rng::new(ctx.seed ^ rng::hash64(idx ^ 0xC01));
         match *name {
+            "arm64-write-order" => {
+                // AArch64 (both install kinds): same ordering rule; judged on the shim's event log
+                if cfg!(sim_no_arm64) {
+                    out::outcome(idx, "arm64/write-order", Verdict::Inconclusive, "emitter-not-in-this-build", &J::new());
+                    continue;
+                }
+                for k in 0..2000u64 {
+                    let src = user_addr(&mut rng);
+                    let jit = ((src & !0xFFF) as i64 + rng.range(-30000, 30000) * 4096) as u64;
+                    if (jit as i64 - src as i64).abs() < 64 || jit >> 47 != 0 || jit == 0 {
+                        continue;
+                    }
+                    b.evals += 1;
+                    let boolean = if k % 4 == 3 { Some(k % 8 == 3) } else { None };
+                    if install(Arch::Arm64, src, jit, user_addr(&mut rng), boolean, rng.next()).is_ok() {
+                        if let Some((e, t)) = entry_written_before_trampoline(src, jit) {
+                            b.fail("entry-redirected-before-the-trampoline-was-written", J::new().s("arch", "arm64").x("entry", src as usize).x("trampoline", jit as usize).n("entry_write_is_event", e as u64).n("last_trampoline_write_is_event", t as u64));
+                        }
+                    } else {
+                        b.refused += 1;
+                    }
+                }
+            }
             "edge-grid" => {
                 // entry->trampoline displacement d1 and trampoline->fake displacement d2 on the i32 boundary grid
                 for &d1 in &edge {
